@@ -19,10 +19,12 @@ THEOREMS = {
             "ShipVerif.Ski.normalize_idem", "ShipVerif.Ski.normalize_canonical", "ShipVerif.Ski.ops_eq"],
     "C18": ["ShipVerif.Hub.C18_notifications_converge", "ShipVerif.Hub.C18_quiescent", "ShipVerif.Hub.C18_fifo", "ShipVerif.Hub.J_step", "ShipVerif.Hub.cs_names"],
     "C11": ["ShipVerif.Hub.C11_registry", "ShipVerif.Reg.C11_newest_kept", "ShipVerif.Reg.regCfg_is_fixed", "ShipVerif.Reg.rinv_run",
-            "ShipVerif.Reg.C11_two_sections_drop_newer"],
+            "ShipVerif.Reg.C11_two_sections_drop_newer",
+            "ShipVerif.Life.C11_notifications_consistent", "ShipVerif.Life.lifeCfg_is_fixed", "ShipVerif.Life.linv_run",
+            "ShipVerif.Life.C11_delayed_end_of_older_connection"],
     "C01": ["ShipVerif.Hub.C10_trust_sources", "ShipVerif.Hub.C10_unregister_effect", "ShipVerif.Hub.C10_cancel_effect"],
 }
-IMPORTS = ["ShipVerif.Props.HubProps", "ShipVerif.Props.C15", "ShipVerif.Props.C11Reg", "ShipVerif.Props.C10Dial", "ShipVerif.Props.C10Shut"]
+IMPORTS = ["ShipVerif.Props.HubProps", "ShipVerif.Props.C15", "ShipVerif.Props.C11Reg", "ShipVerif.Props.C10Dial", "ShipVerif.Props.C10Shut", "ShipVerif.Props.C11Life"]
 ENDED = {14, 15, 16, 17, 39}   # aborted or failed handshakes: the connection closes itself
 
 
@@ -288,7 +290,7 @@ def hub_part(R, pid, tier, seed):
     """runs proofs + engine for the hub half of `pid`; adds violations to R; returns a coverage dict"""
     obligations = THEOREMS[pid]
     changed, err = C.regen_facts()
-    p = C.lake_build(["ShipVerif.Props.HubProps", "ShipVerif.Props.C15", "ShipVerif.Props.C11Reg", "ShipVerif.Props.C10Dial", "ShipVerif.Props.C10Shut", "shipdrv"])
+    p = C.lake_build(["ShipVerif.Props.HubProps", "ShipVerif.Props.C15", "ShipVerif.Props.C11Reg", "ShipVerif.Props.C10Dial", "ShipVerif.Props.C10Shut", "ShipVerif.Props.C11Life", "shipdrv"])
     lean_ok = p.returncode == 0 and not err
     aud = C.audit(pid + "hub", obligations, IMPORTS) if lean_ok else []
     forb = C.grep_forbidden()
